@@ -12,7 +12,7 @@ res() { echo "$1" | tee -a "$D/confirm.log"; }
 FEAT=""
 if grep -q "feature = \"nightly\"\|dryoc::protected\|protected::" "$D/demo.rs"; then FEAT="+nightly"; fi
 if [ -n "${DEMO_FEATURES:-}" ]; then FEAT="+nightly"; fi
-run_demo() { cp "$D/demo.rs" tests/zz_demo.rs; if [ -n "$FEAT" ]; then cargo +nightly test --offline --features ${DEMO_FEATURES:-nightly,serde,base64} --test zz_demo >/tmp/mutconf-demo.$$ 2>&1; else cargo test --offline --features serde,base64 --test zz_demo >/tmp/mutconf-demo.$$ 2>&1; fi; rc=$?; rm -f tests/zz_demo.rs; return $rc; }
+run_demo() { cp "$D/demo.rs" tests/zz_demo.rs; if [ -n "$FEAT" ]; then cargo +nightly test --offline --features ${DEMO_FEATURES:-nightly,serde,base64} ${DEMO_EXTRA:-} --test zz_demo >/tmp/mutconf-demo.$$ 2>&1; else cargo test --offline --features serde,base64 ${DEMO_EXTRA:-} --test zz_demo >/tmp/mutconf-demo.$$ 2>&1; fi; rc=$?; rm -f tests/zz_demo.rs; return $rc; }
 run_demo; A=$?
 res "demo on unmodified tree: rc=$A (want 0)"
 if ! git apply "$D/patch.diff"; then res "PATCH DOES NOT APPLY"; cd /; git -C /repo worktree remove --force "$W"; exit 3; fi
